@@ -595,6 +595,21 @@ def run(ctx):
             ctx.guard(run_case, ctx, prog, k, rr, witness={"program": prog, "inject_at": k, "recorder_raises_on": rr})
             ctx.case((prog, k, rr), nontrivial=depth_of(prog) >= 2 and N >= 3)
         ctx.state("skeleton_shapes", (min(depth_of(prog), 4), min(N, 10)))
+    # sizes ordinary programs never reach: 90 blocks inside one another, a thousand values displayed in one block; with a fault
+    # injected at a few positions (every position would be quadratic)
+    if ctx.shard == 0:
+        deep = [{"s": "display", "v": {"k": "text", "s": "bottom"}}, {"s": "raise"}]
+        for d_ in range(90):
+            deep = [{"s": "display", "v": {"k": "num", "v": d_}}, {"s": "block", "tag": BLOCK_TAGS[d_ % len(BLOCK_TAGS)], "body": deep}, {"s": "display", "v": {"k": "text", "s": "after%d" % d_}}]
+        deep_ok = [{"s": "block", "tag": "div", "body": [x for x in deep]}]
+        many = [{"s": "block", "tag": "ul", "body": [{"s": "display", "v": ({"k": "text", "s": "v%d" % k} if k % 3 else gen.TAG("li", {"k": "text", "s": "k"}, ws=False) if k % 2 else {"k": "dep", "name": "d", "version": "1.0"})}
+                                                     for k in range(1200)]}]
+        for prog in (deep_ok, many):
+            N = count_stmts(prog)
+            for k in (None, 0, 1, N // 2, N - 2, N - 1, 95, 181, 182):
+                ctx.guard(run_case, ctx, prog, k, None, witness={"program": "large deterministic program", "inject_at": k})
+            ctx.case(("large", N), nontrivial=True)
+            ctx.count("very_large_programs")
     for _ in range(ctx.budget(40, 4000)):
         ctx.guard(run_default_hook_case, ctx, rng.randint(1, 3), rng, witness={"what": "default hook"})
         ctx.guard(run_copy_case, ctx, rng, witness={"what": "block on a copy of a finished tag"})
